@@ -203,7 +203,7 @@ func (p *c16prop) Gen(kind string, idx int64, seed int64, tier string) core.Case
 		cc = C16Case{Cfg: arbitraryCfg(r, typ), Accept: true}
 	default:
 		class, typ := splitKind(k)
-		w := HWeights{Write: 16, ReadFrom: 12, Parse: 26, ParseNTL: 10, ParseNil: 8, Shrink: 12, Reset: 2, ResetData: 6, Probe: 8, Faults: true}
+		w := HWeights{Write: 16, ReadFrom: 12, Parse: 26, ParseNTL: 10, ParseNil: 8, Shrink: 12, Reset: 2, ResetData: 6, Probe: 8, WParse: 8, Faults: true}
 		var c gen.Cfg
 		var pc PCase
 		if class == "large" {
@@ -296,7 +296,35 @@ func (o *c16obs) Observe(ev *PEvent, ps *PState) (string, string) {
 		if ev.Err == ErrInjected && ev.Reader.nInj == 0 || ev.Err == io.EOF && ev.Reader.nEOF == 0 {
 			return "spurious-error", fmt.Sprintf("ReadFrom returned %v, which the reader never returned", ev.Err)
 		}
+	case "wparse":
+		// a wrapped Parse may only report io.EOF or the reader's own error,
+		// and only if the reader returned it during this call
+		rd := ev.Reader
+		switch ev.Err {
+		case nil:
+			if ev.N <= 0 {
+				return "no-progress", fmt.Sprintf("wrapped Parse returned n=%d with nil error", ev.N)
+			}
+		case io.EOF:
+			if rd.nEOF == 0 {
+				return "spurious-error", "wrapped Parse returned io.EOF, which the reader never returned"
+			}
+		case ErrInjected:
+			if rd.nInj == 0 {
+				return "spurious-error", "wrapped Parse returned an error the reader never returned"
+			}
+		default:
+			return "undocumented-error", fmt.Sprintf("wrapped Parse returned %v", ev.Err)
+		}
+		o.st.Inc("wrapped_parse_calls_in_histories")
 	case "reset":
+		if ev.Wrapped {
+			// WrappedParser.Reset -> Reset(nil)
+			if ev.Err != nil {
+				return "spurious-error", fmt.Sprintf("Reset(nil) returned %v", ev.Err)
+			}
+			break
+		}
 		if (ev.Err != nil) != ev.ResetOversize {
 			return "spurious-error", fmt.Sprintf("Reset with %d bytes (BufferSize %d) returned %v", len(ev.Given), ps.BufferSize, ev.Err)
 		}
